@@ -186,6 +186,17 @@ def b_special(c):
     return (lambda v: getattr(np, prim)(v)), x, {}
 
 
+# ----------------------------------------------------------------------------- single precision
+def b_single(c):
+    c2 = dict(c, scal="array")
+    base = b_where if c["prim"] == "where" else (b_binary if c["prim"] in ("add", "subtract", "multiply", "divide") else b_contract)
+    f, x, info = base(c2)
+    if not isinstance(x, onp.ndarray) or x.ndim == 0:
+        raise Skip("single-precision family needs an array operand")
+    x32 = x.astype(onp.complex64 if onp.iscomplexobj(x) else onp.float32)
+    return f, x32, dict(info, x_jac=x, single=True)
+
+
 # ----------------------------------------------------------------------------- arrays with no entries
 def b_empty(c):
     prim, s, v = c["prim"], tuple(c["s"]), c["ia"]
@@ -271,7 +282,7 @@ def b_extend(c):
     from autograd.extend import primitive, defvjp, defjvp
     from autograd.numpy.numpy_vjps import unbroadcast
     tbl, red, api = c["ia"], c["ib"], c["form"]
-    fl0, fl1 = tbl == 1, tbl == 2
+    fl0, fl1 = tbl in (1, 3), tbl in (2, 3)
     sa, sb = tuple(c["s"]), tuple(c["s2"])
     a = data(sa, 0.3, 2.7, 0)
     b = data(sb, 0.4, 1.9, 5)
@@ -296,6 +307,10 @@ def b_extend(c):
         defjvp(user, j0, j1)
     elif api in ("deprecated", "defgrad"):
         # the pre-1.2 registration methods on the primitive object (still exported, emit a deprecation warning)
+        if tbl in (1, 2):
+            # in the compatibility shim prim.defvjp / prim.defgrad and prim.defvjp_is_zero each re-register the WHOLE rule table from
+            # their own bookkeeping, so mixing them loses the earlier registrations (the lost derivative raises - loudly)
+            raise Skip("deprecated API: rules and zero declarations cannot be mixed")
         import warnings
         from autograd.core import primitive as old_primitive
         user = old_primitive(raw)
@@ -312,8 +327,8 @@ def b_extend(c):
                     user.defgrad(r0, argnum=0)
                 if not fl1:
                     user.defgrad(r1, argnum=1)
-            if zero:
-                user.defvjp_is_zero(argnums=zero)
+            for zslot in zero:                      # one declaration per argument: the declarations accumulate
+                user.defvjp_is_zero(argnums=(zslot,))
         defjvp(user, j0, j1)
     else:
         defvjp(user, r1, r0, argnums=(1, 0))
@@ -514,6 +529,11 @@ def b_rearr(c):
         f = lambda v: np.full(tuple(tp), v)
     else:
         raise Skip("no template for " + prim)
+    if prim == "astype":
+        # a precision-changing cast is the identity map up to rounding: its finite differences are rounding noise, the Jacobian is I
+        if c["kind"] == "cc" or st.startswith("complex"):
+            x = data(s, 0.3, 2.7, 0, True) if c["kind"] == "cc" else x
+        return f, x, {"f_jac": (lambda v: onp.real(v) + 0.0) if (onp.iscomplexobj(x) and not st.startswith("complex")) else (lambda v: v + 0.0)}
     return f, x, {}
 
 
@@ -971,4 +991,4 @@ def b_helper(c):
     return f, x, {}
 
 
-BUILDERS = {"empty": b_empty, "mixorder": b_mixorder, "realinto": b_realinto, "special": b_special, "extend": b_extend, "helper": b_helper, "argsweep": b_argsweep, "kink": b_kink, "linalg": b_linalg, "fft": b_fft, "index": b_index, "join": b_join, "contract": b_contract, "rearr": b_rearr, "binary": b_binary, "where": b_where, "reduce": b_reduce, "cum": b_cum, "unary": b_unary}
+BUILDERS = {"single": b_single, "empty": b_empty, "mixorder": b_mixorder, "realinto": b_realinto, "special": b_special, "extend": b_extend, "helper": b_helper, "argsweep": b_argsweep, "kink": b_kink, "linalg": b_linalg, "fft": b_fft, "index": b_index, "join": b_join, "contract": b_contract, "rearr": b_rearr, "binary": b_binary, "where": b_where, "reduce": b_reduce, "cum": b_cum, "unary": b_unary}
